@@ -4,9 +4,9 @@ from .common import CFGS, accepted
 META = {
     "bounds": {"quick": {"numeric clauses": "frames of m <= 3 rows, scores symbolic reals, labels symbolic in {0,1} (pos_label 1), group membership symbolic over 2 fixed group names (every assignment a path), "
                                             "thresholds scalar / (1,) / (2,), metrics fnr/fpr/tpr/tnr/ppv/npv/topr/accuracy, normalize None/by_overall/by_min",
-                         "bootstrap": "identity sampler and a deterministic 2-sample sampler x quantile/bc/bca; limits compared with utils.bootstrap_ci on the normalised replicates",
+                         "bootstrap": "identity sampler and a deterministic 2-sample sampler x quantile/bc/bca (bca with the 2-sample sampler only un-normalised: the normalised variants are cubic and z3 does not decide them within 25 min); limits compared with utils.bootstrap_ci on the normalised replicates",
                          "labels": "two group columns with SYMBOLIC string values of length <= 2 over the alphabet {a, b, _}: 1 and 2 rows"},
-               "thorough": {"numeric clauses": "m <= 4, 3 group names", "labels": "length <= 3"}},
+               "thorough": {"numeric clauses": "m <= 3 as quick with 2 thresholds for all 8 metrics; m = 4 rows over 3 group names: all 8 metrics un-normalised, fnr and ppv also normalised", "labels": "length <= 3"}},
     "assumptions": ["R-ideal", "pandas replaced by the symx.pd contract stub (DataFrame columns as arrays, apply(axis=1), Index / MultiIndex.from_arrays); pandas itself, to_markdown and plotting are outside",
                     "dict/set look-ups on symbolic strings go through equality forks (constant hash): sound because every key of those containers is a symbolic string in these items",
                     "by_overall replicates may be divided by the original data's overall metric or by their own sample's (the property does not say which): the oracle accepts either"],
@@ -31,15 +31,15 @@ def items(tier):
         sc, ec = CFGS[(i + 1) % 4]
         for norm in (None, "by_overall", "by_min"):
             out.append({"kind": "values", "m": 3, "metric": metric, "sc": sc, "ec": ec, "normalize": norm, "thr": thr, "G": 2})
-            if tier == "thorough":
+            if tier == "thorough" and (norm is None or metric in ("fnr", "ppv")):      # ~6 min (un-normalised) to ~20 min per item on one core
                 out.append({"kind": "values", "m": 4, "metric": metric, "sc": sc, "ec": ec, "normalize": norm, "thr": "(1,)", "G": 3})
     for method in ("quantile", "bc", "bca"):
         for norm in (None, "by_overall", "by_min"):
             for sampler in ("identity", "dropper"):
-                if tier == "quick" and method == "bca" and sampler == "dropper" and norm is not None:
-                    continue      # nonlinear and slow; thorough tier
-                # bca on a deterministic 2-sample sampler is cubic in the symbols: one threshold there; two thresholds for the rest of the thorough tier
-                one = tier == "quick" or (method == "bca" and sampler == "dropper")
+                if method == "bca" and sampler == "dropper" and norm is not None:
+                    continue      # cubic in the symbols: z3 did not decide these within 25 min per item (measured) - outside both tiers
+                # two thresholds in the thorough tier, except where bca meets by_min (nonlinear; occasional solver give-ups at (2,))
+                one = tier == "quick" or (method == "bca" and (sampler == "dropper" or norm == "by_min"))
                 out.append({"kind": "bootstrap", "method": method, "normalize": norm, "sampler": sampler, "thr": "(1,)" if one else "(2,)", "G": 2})
         out.append({"kind": "bootstrap", "method": method, "normalize": None, "sampler": "identity", "thr": "(2,)", "G": 1})      # one group, several thresholds
     L = 2 if tier == "quick" else 3
